@@ -1994,6 +1994,17 @@ return 1;""",
         self.set_fmt_fields(cls, node, ast, fmt_result, True)
         self.set_cxx_nonconst_ptr(ast, fmt_result)
         sgroup = result_typemap.sgroup
+        if (sgroup == "shadow" and not is_ctor
+                and ast.attrs["owner"] == "caller"):
+            # The instance is released with the Python object.
+            capsule_type = result_typemap.cxx_type + " *"
+            fmt_result.capsule_order = self.add_capsule_code(
+                self.language + " " + capsule_type,
+                [
+                    "{} cxx_ptr =\t static_cast<{}>(ptr);".format(
+                        capsule_type, capsule_type),
+                    "delete cxx_ptr;",
+                ])
         stmts = None
         if is_ctor:
             # Code added by create_ctor_function.
@@ -2166,15 +2177,16 @@ return 1;""",
         PyObj = fmt_func.PY_PyObject
         if "type" in node.python:
             selected = node.python["type"][:]
-            for auto in ["del"]:
+            for auto in ["dealloc", "del"]:
                 # Make some methods are there
                 if auto not in selected:
                     selected.append(auto)
         else:
-            selected = ["del"]
+            selected = ["dealloc", "del"]
 
         # Dictionary of methods for bodies
         default_body = dict(richcompare=self.not_implemented)
+        default_body["dealloc"] = self.tp_dealloc
         default_body["del"] = self.tp_del
 
         self._push_splicer("type")
@@ -2942,6 +2954,21 @@ setup(
             "Py_INCREF(Py_NotImplemented);",
             "return Py_NotImplemented;"
         ]
+
+    def tp_dealloc(self, node, msg, ret):
+        """default method for tp_dealloc.
+        CPython calls tp_dealloc when the last reference goes away
+        (tp_del is not called for these types):
+        release the C++ instance, then the Python object.
+
+        Args:
+            node - ast.ClassNode
+            msg  - 'dealloc'
+            ret  - ''
+        """
+        output = self.tp_del(node, msg, ret)
+        output.append("Py_TYPE(self)->tp_free((PyObject *) self);")
+        return output
 
     def tp_del(self, node, msg, ret):
         """default method for tp_del.
@@ -4569,6 +4596,7 @@ py_statements = [
             "\t PyObject_New({PyObject}, &{PyTypeObject});",
             "if ({py_var} == {nullptr}) goto fail;",
             "{py_var}->{PY_type_obj} = {cxx_addr}{cxx_var};",
+            "{py_var}->{PY_type_dtor} = {capsule_order};",
         ],
         object_created=True,
 #            post_call_capsule=[
@@ -4589,6 +4617,9 @@ py_statements = [
             "\t PyObject_New({PyObject}, &{PyTypeObject});",
 #                "if ({py_var} == {nullptr}) goto fail;",
             "{py_var}->{PY_type_obj} = {cxx_addr}{cxx_var};",
+            # PyObject_New does not initialize the object.
+            # 0 does not release, else the index from owner(caller).
+            "{py_var}->{PY_type_dtor} = {capsule_order};",
         ],
         object_created=True,
 #            post_call_capsule=[
